@@ -63,6 +63,7 @@ def main():
                             break
             finally:
                 sh('git -C /repo checkout -- .')
+                sh('/venv/bin/python harness/extract.py', '/verif')     # Generated/* back to the real tree
     meta['results'] = results
     caught = [k for k, v in results.items() if v['exit'] == 1]
     with_input = [k for k, v in results.items() if any(x.get('found_failing_input') for x in v['violations'])]
